@@ -58,8 +58,16 @@ def main():
                                       "a == 1 and", "a in", "1 in", "a is", "a is not", "a is not empty or", 'a matches "("', "a == 1 and b == 2 or c == 3", "all a as x, x { x == 1 }", 'any x as v { "" is empty }', '"" == 1', 'all m as k, v { "" != 1 }', 'any x as v { "" in v }', 'foo matches "("', 'a not matches "[a"', 'any x as v { v matches "(" }', 'm.k matches ")" or foo matches "a(b"', 'foo matches ""', " a == 1 ", "\ta == 1\n", "a == 1\r\n", "\n\n(a == 1)  "]]
     seeds += [["<B>"] + s for s in seeds[:8]] + [s + ["<B>"] for s in seeds[:8]]
     seeds += [pegrun.syms(t) for t in pegrun.EXTRA_TEXTS]
-    seeds = pegrun.cheap([s for s in seeds if s is not None], 20000, wd)
-    world = pegrun.peg_world(toks, 2 if quick else 3, 1, seeds, checked=True, later=pegrun.LATER[:16])
+    if not quick:
+        # renderings of random trees and token-level mutations of them (the engine invariants are asserted on every step: with them on
+        # TLC manages ~40 inputs a second, so the 3-token sequences are left to C15's thorough tier, which runs without them)
+        _, rows = pegrun.rendered_seeds(rnd, 250, 3, wd)
+        for r in rows:
+            sy = pegrun.syms(r["text"])
+            if sy is not None and 0 < r["steps"] <= 3000:
+                seeds += [sy, pegrun.mutate(rnd, sy), pegrun.mutate(rnd, sy)]
+    seeds = pegrun.cheap([s for s in seeds if s is not None], 20000 if quick else 3000, wd)
+    world = pegrun.peg_world(toks, 2, 1, seeds, checked=True, later=pegrun.LATER[:16])
     res = pegrun.run_peg(chk, "c10", world, shapes=True)
     chk.cov["evaluations"] = res["inputs"]
     for m in res["shape"]:
